@@ -236,4 +236,20 @@ Proof.
   all: step_cases ltac:(auto).
 Qed.
 
+
+(* ---- C14 (d): what close() leaves behind ---- *)
+Definition rx_quiet (x : g) : bool := match rx x with RNone | RDone | RCreated => true | _ => false end.
+Definition I5 (x : g) : Prop :=
+  (closing x = KSleepCons -> cons_alive x = false \/ cons_creq x = true) /\
+  (closing x = KDone -> cons_alive x = false) /\
+  (closing x = KSleepRx -> rx_quiet x = true \/ rx_creq x = true) /\
+  (closing x = KSleepCons \/ closing x = KDone -> rx_quiet x = true).
+
+Lemma I5_step fe fl x a y : I0 x -> I5 x -> trans k fe true fl x a = Some y -> I5 y.
+Proof.
+  unfold I0, hold_lock_ok, attempt_no_ok, closed_iff_closing, I5, rx_quiet, cons_alive.
+  intros (A & B & C) (D1 & D2 & D3 & D4). destruct x; cbn in *. destruct a.
+  all: step_cases ltac:(try (intuition (try congruence))).
+Qed.
+
 End Inv.
